@@ -315,7 +315,11 @@ fn run(prop: &str, tier: &str) -> i32 {
                 Some(i) => i,
                 None => break,
             };
+            let tj = Instant::now();
             let r = run_job(&jobs[idx], idx);
+            if std::env::var("GDSL_MC_TIMES").is_ok() {
+                eprintln!("job-time {:.1}s {} {}", tj.elapsed().as_secs_f64(), jobs[idx].label(), jobs[idx].params);
+            }
             results.lock().unwrap().push((idx, r));
         }));
     }
@@ -383,6 +387,10 @@ fn run(prop: &str, tier: &str) -> i32 {
     let mut new_violations = 0usize;
     let mut known_hits = 0usize;
     let mut lines = Vec::new();
+    // candidates that an explorer-free replay does not confirm are never
+    // reported as violations; they are machinery errors, but must not mask
+    // confirmed violations of the same run
+    let mut unconfirmed: Vec<String> = Vec::new();
     for v in by_class.values() {
         let body = json!({
             "property": v.property, "engine": v.engine, "flavour": v.flavour,
@@ -402,17 +410,17 @@ fn run(prop: &str, tier: &str) -> i32 {
                         j["violations"].as_array().map(|a| a.iter().any(|x| x[0] == v.class.as_str())).unwrap_or(false)
                     });
                     if !confirmed {
-                        eprintln!("machinery error: replay of {} reproduced a different class than {}: {}", path, v.class, so);
-                        return 2;
+                        unconfirmed.push(format!("replay of {} reproduced a different class than {}: {}", path, v.class, so));
+                        continue;
                     }
                 }
                 Ok(o) => {
-                    eprintln!(
-                        "machinery error: violation {} ({}) did not reproduce by plain replay (exit {:?}): {}{}",
+                    unconfirmed.push(format!(
+                        "violation {} ({}) did not reproduce by plain replay (exit {:?}): {}{}",
                         v.class, path, o.status.code(),
                         String::from_utf8_lossy(&o.stdout), String::from_utf8_lossy(&o.stderr)
-                    );
-                    return 2;
+                    ));
+                    continue;
                 }
                 Err(e) => {
                     eprintln!("machinery error: cannot run replay: {}", e);
@@ -433,6 +441,12 @@ fn run(prop: &str, tier: &str) -> i32 {
             lines.push(format!("  flavour={} class={}", v.flavour, v.class));
             lines.push(format!("  {}", v.what));
         }
+    }
+    for u in &unconfirmed {
+        eprintln!("machinery error: {}", u);
+    }
+    if !unconfirmed.is_empty() && new_violations == 0 {
+        return 2;
     }
     let wall = t0.elapsed().as_secs_f64();
     write_evidence(
